@@ -110,6 +110,15 @@ def generate(tier, seed):
         for m in range(1, 13):
             for k in list(range(-40, 41)) + [-600, 600]:
                 add("ym_plus y=%d m=%d k=%d" % (y, m, k), "ym_plus")
+    for z in sorted(zs):
+        if LO + 40 <= z <= HI - 40 and (thorough or z % 3 == 0):
+            add("ymw z=%d" % z, "ymw")
+    for y in ys[:: (1 if thorough else 3)]:
+        for m in range(1, 13):
+            for w in range(0, 7):
+                add("ymwl_days y=%d m=%d w=%d" % (y, m, w), "ymwl_days")
+                for i in range(1, 6):
+                    add("ymw_days y=%d m=%d w=%d i=%d" % (y, m, w, i), "ymw_days")
     for y in (-32767, -1, 0, 2000, 32767):
         for k in (-5, -1, 0, 1, 5, 100):
             if -32767 <= y + k <= 32767:
@@ -147,4 +156,6 @@ LEVEL_TEXT = ("The calendar kernels (civil_from_days, days_from_civil, weekday_f
 LEVEL_NOTE = ("Trusted: Lean kernel + propext/Classical.choice/Quot.sound; gen/translate.py and clang-16's AST; g++-12; libstdc++ chrono "
               "as oracle for the spec. The in-era part of the bijection is a kernel-evaluated finite check over all 146097 days of "
               "an era (decide +kernel, complete domain), lifted to all days by the proved era decomposition.")
-CORRESPONDENCE_ONLY = []
+CORRESPONDENCE_ONLY = ["year_month_weekday <-> sys_days, year_month_weekday::ok, year_month_weekday_last -> sys_days, "
+                       "year_month_day_last -> sys_days (ops ymw, ymw_days, ymwl_days): implementation compared with the Lean "
+                       "calendar spec and with std::chrono; no generated model / theorem yet"]
